@@ -520,12 +520,17 @@ class Model:
         t = self.TARGETS[spec % len(self.TARGETS)]
         return t
 
+    TARGETS_U = ['文档/说明.txt', '../目录', 'a/é/中', '/корень/файл', 'x/' + '日' * 100, '😀/a', 'plain/文', 'Ω']
     TX_TAILS = ['.', '..', 'x', '..x', '.x', '...']
     TX_HEADS = ['', '', 'a/', '/', '../', '.hidden/', 'p' * 100 + '/']
 
     def target_of(self, op):
         """'tx' = [n, tail, head, mid]: one long component of n filler bytes whose pieces (the writer has to split it between
         SL entries) may end up being '.' or '..', optionally with dots in the middle and other components around it."""
+        tu = op.get('tu')
+        if tu:
+            # components outside Latin-1 (UDF records them as 16-bit identifiers, Rock Ridge as UTF-8 bytes)
+            return self.TARGETS_U[tu % len(self.TARGETS_U)]
         tc = op.get('tc')
         if tc:
             # 'tc' = [component length, count, head]: a target of many short components
@@ -858,7 +863,11 @@ class Model:
             efi = None
         pe = op.get('pe', 1)
         if ((efi or mac) and pe == 2) or (mac and pe == 3):
-            raise Skip('partition entry collides with the EFI/Mac entry')
+            # the library documents that it refuses this; the call is made all the same (a refusal is counted as such,
+            # an acceptance leaves an MBR that C12 will not accept) - except where the call itself is what a check counts
+            if not op.get('try_collision', True):
+                raise Skip('partition entry collides with the EFI/Mac entry')
+            self.classes.add('hybrid-collision-tried')
         if (mac or efi) and 'hybrid-gpt' in self.avoid:
             raise Skip('avoid:hybrid-gpt')
         n_ef = sum(1 for e in self.boot['entries'] if e['eff_platform'] == 0xef)
